@@ -62,7 +62,40 @@ def stack_schema(fi, edge=False):
                     events.append(("extend", n.lineno, n.col_offset, {"reversed": rev, "children": conv(norm(src)), "elem": conv(norm(elt)), "state": state}))
                 else:
                     events.append(("extend", n.lineno, n.col_offset, {"reversed": isinstance(gen, ast.Call) and call_name(gen) == "reversed", "children": conv(norm(gen)), "elem": None, "state": None}))
-    events.sort(key=lambda e: (e[1], e[2]))
+    # order of events along the structure, not the text: statement index inside each block, and inside an `if`
+    # the branch taken when the (un-negated) test is true comes first - so `if not A: X else: Y` reads as `if A: Y else: X`
+    lpm = parent_map(loop)
+
+    def skey(node):
+        path = []
+        cur = node
+        while cur is not loop and cur is not None:
+            par = lpm.get(cur)
+            if par is None:
+                break
+            if isinstance(par, ast.If):
+                t, tb, fb = pos_if(par)
+                if any(cur is x for x in tb):
+                    path.append((1, 0, [id(x) for x in tb].index(id(cur))))
+                elif any(cur is x for x in fb):
+                    path.append((1, 1, [id(x) for x in fb].index(id(cur))))
+                else:
+                    path.append((0, 0, 0))      # inside the test
+            else:
+                for attr in ("body", "orelse", "finalbody"):
+                    blk = getattr(par, attr, None)
+                    if isinstance(blk, list) and any(cur is x for x in blk):
+                        path.append((1, 0 if attr == "body" else 1, [id(x) for x in blk].index(id(cur))))
+                        break
+                else:
+                    path.append((0, 0, getattr(cur, "col_offset", 0)))
+            cur = par
+        return list(reversed(path))
+    node_of_event = {}
+    for n in walk_no_nested(loop):
+        if isinstance(n, (ast.Yield, ast.Call)):
+            node_of_event[(getattr(n, "lineno", 0), getattr(n, "col_offset", 0))] = n
+    events.sort(key=lambda e: (skey(node_of_event[(e[1], e[2])]), e[1], e[2]))
     sch["order"] = [e[0] for e in events]
     ext = [e[3] for e in events if e[0] == "extend"]
     sch["extend"] = ext[0] if len(ext) == 1 else ext
@@ -76,8 +109,12 @@ def stack_schema(fi, edge=False):
         while p is not None and not isinstance(p, ast.If):
             p = pm.get(p)
         chain = []
+        prev = y
         while isinstance(p, ast.If):
-            chain.append(conv(norm(p.test)))
+            t_, tb_, fb_ = pos_if(p)
+            in_true = any(any(z is prev for z in ast.walk(st)) for st in tb_)
+            chain.append(("" if in_true else "not ") + conv(norm(t_)))
+            prev = p
             q = pm.get(p)
             while q is not None and not isinstance(q, ast.If):
                 q = pm.get(q)
@@ -266,8 +303,10 @@ def run(index, rep, tier):
             pol = set()
             for d in defs:
                 iff = pm.get(d)
-                if isinstance(iff, ast.If) and norm(iff.test) == "descending":
-                    pol.add((d in iff.body, const_value(d.value, None)))
+                if isinstance(iff, ast.If):
+                    t_, tb_, fb_ = pos_if(iff)
+                    if norm(t_) == "descending":
+                        pol.add((d in tb_, const_value(d.value, None)))
             okr = pol == {(True, True), (False, False)} and len(defs) == 2
         rep.check(okr, "R15.6", af.qualname, "reverse flag is not `descending`", fn_where(af, sc), "the sort is reversed exactly when descending is requested",
                   "Node.ageorder_iter does not reverse its sort exactly when `descending` is truthy (reverse=%s)" % (norm(rv) if rv is not None else None))
